@@ -34,6 +34,14 @@ def close(a, b, tol=1e-7):
     return bool(np.all(np.abs(np.asarray(a, dtype=float) - np.asarray(b, dtype=float)) <= tol * np.maximum(1.0, np.abs(np.asarray(b, dtype=float)))))
 
 
+def IP(arr, flag):
+    """Point from a homogeneous array; integer-typed if requested and the entries are integral (Point(1, 2, 3) is integer-typed)"""
+    arr = np.asarray(arr)
+    if flag and np.all(arr == np.round(arr)):
+        arr = arr.astype(np.int64)
+    return Point(arr)
+
+
 def P(v):
     return Point(np.append(np.asarray(v, dtype=float), 1.0))
 
@@ -197,7 +205,8 @@ def solid_case(draw, tier="quick"):
     what = draw(st.sampled_from(["segment", "triangle2", "triangle3", "tetrahedron", "cuboid", "regular2", "regular3", "polyhedron_eq"]))
     return {"what": what, "v": [draw(C.ints(6)) for _ in range(12)], "n": draw(st.integers(3, 9)), "r": draw(st.sampled_from([1, 2, 3, 0.5, 2.5])), "perm": draw(st.permutations(range(6))),
             "lens": [draw(st.integers(1, 4)) for _ in range(3)], "coll": draw(st.booleans()), "s": [draw(C.scale()) for _ in range(4)],
-            "derive": draw(st.sampled_from([None, None, "translation*", "+point", "scaling*"])), "move": [draw(st.integers(-4, 4)) for _ in range(3)]}
+            "derive": draw(st.sampled_from([None, None, "translation*", "+point", "scaling*"])), "move": [draw(st.integers(-4, 4)) for _ in range(3)],
+            "intd": draw(st.booleans()), "w": [draw(st.sampled_from([1, 1, 2, 4, -2])) for _ in range(4)]}
 
 
 def orth_frame(v):
@@ -246,7 +255,7 @@ def _run_solid(c, what, v, ck, der):
             exp_len = np.array([np.linalg.norm(a - b), np.linalg.norm(a - b)])
             exp_mid = np.stack([np.append((a + b) / 2, 1), np.append(b + (b - a) / 2, 1)])
         else:
-            s = Segment(Point(np.append(a, 1) * sc[0]), Point(np.append(b, 1) * sc[1]))
+            s = Segment(IP(np.append(a, 1) * sc[0], c.get("intd")), IP(np.append(b, 1) * sc[1], c.get("intd")))
             exp_len = np.linalg.norm(a - b)
             exp_mid = np.append((a + b) / 2, 1)
         s = der(s)
@@ -266,12 +275,16 @@ def _run_solid(c, what, v, ck, der):
         return ck.result()
     if what in ("triangle2", "triangle3"):
         d = int(what[-1])
-        pts = [np.array(v[i * d : i * d + d], float) for i in range(3)]
+        # rational vertices p / w given by the integral representative (p, w): the affine coordinates are not integers
+        ws = c.get("w", [1, 1, 1, 1])
+        if len(ws) != 4 or any(x not in (1, 2, 4, -2) for x in ws):
+            raise Skip("malformed")
+        pts = [np.array(v[i * d : i * d + d], float) / ws[i] for i in range(3)]
         e1, e2 = pts[1] - pts[0], pts[2] - pts[0]
         area = abs(e1[0] * e2[1] - e1[1] * e2[0]) / 2 if d == 2 else np.linalg.norm(np.cross(e1, e2)) / 2
         if area == 0:
             raise Skip("degenerate")
-        t = der(Triangle(*[Point(np.append(p, 1) * s) for p, s in zip(pts, sc)]))
+        t = der(Triangle(*[IP(np.append(p, 1) * w_ * (s if abs(s) >= 1 else 1), c.get("intd")) for p, s, w_ in zip(pts, sc, ws)]))
         a, f = call("Triangle.area", lambda: t.area)
         if f:
             ck.add(f)
@@ -298,11 +311,14 @@ def _run_solid(c, what, v, ck, der):
             ck.check(C.peq_all(ce.array, np.append(sum(pts) / 3, 1), 1, 1e-7), f"{what}:centroid", ce.array.tolist())
         return ck.result()
     if what == "tetrahedron":
-        pts = [np.array(v[i * 3 : i * 3 + 3], float) for i in range(4)]
+        ws = c.get("w", [1, 1, 1, 1])
+        if len(ws) != 4 or any(x not in (1, 2, 4, -2) for x in ws):
+            raise Skip("malformed")
+        pts = [np.array(v[i * 3 : i * 3 + 3], float) / ws[i] for i in range(4)]
         vol = abs(np.linalg.det(np.stack([p - pts[0] for p in pts[1:]]))) / 6
         if vol == 0:
             raise Skip("degenerate")
-        s = der(Simplex(*[Point(np.append(p, 1) * k) for p, k in zip(pts, sc)]))
+        s = der(Simplex(*[IP(np.append(p, 1) * w_ * (k if abs(k) >= 1 else 1), c.get("intd")) for p, k, w_ in zip(pts, sc, ws)]))
         r, f = call("Simplex.volume", lambda: s.volume)
         if f:
             ck.add(f)
@@ -412,6 +428,6 @@ LAWS = [
         {"quick": 1500, "thorough": 30000}, "Polygon.area / centroid vs exact shoelace, through embeddings, isometries, vertex-cycle rotations/reversal, rescaled vertices", shard=200),
     Law("polygon_equality", lambda tier: eq_case(tier), run_eq, lambda c: True, lambda c: [c["variant"], "embedded3d" if c["embed"] else "planar"], {"quick": 1200, "thorough": 20000},
         "== true exactly for the same vertex cycle up to rotation / reversal / rescaling, false for perturbed cycles", shard=300),
-    Law("solids", lambda tier: solid_case(tier), run_solid, lambda c: any(c["v"][6:9]), lambda c: [c["what"]] + (["derived-from-a-used-object"] if c.get("derive") else []), {"quick": 1600, "thorough": 25000},
+    Law("solids", lambda tier: solid_case(tier), run_solid, lambda c: any(c["v"][6:9]), lambda c: [c["what"]] + (["derived-from-a-used-object"] if c.get("derive") else []) + (["integer-typed-requested"] if c.get("intd") else []), {"quick": 1600, "thorough": 25000},
         "Segment.length/midpoint, Triangle area/volume/circumcenter/centroid, tetrahedron volume, Cuboid area and counts, RegularPolygon, polyhedron ==", shard=150),
 ]
